@@ -112,6 +112,151 @@ def build_cooksim():
     die(f"cooksim does not build against /repo (log: {logp}): " + " | ".join(errs))
 
 
+# --------------------------------------------------------------------------- shadow build
+
+SHADOW_DIR = os.path.join(TARGET, "shadow", "cooklang")
+SHADOW_BIN = os.path.join(TARGET, "release", "cooksim-shadow")
+SHUTTLE_SYNC = {"Mutex", "MutexGuard", "RwLock", "RwLockReadGuard", "RwLockWriteGuard", "Condvar", "Once", "Barrier", "BarrierWaitResult"}
+
+
+def rewrite_sync(text):
+    """std::sync primitives -> shuttle's (Arc, LazyLock, OnceLock, Weak, PoisonError, ... stay std)."""
+    import re
+    n = 0
+
+    def use_group(m):
+        nonlocal n
+        items = [x.strip() for x in m.group(2).split(",") if x.strip()]
+        std_items, sh_items = [], []
+        for it in items:
+            head = it.split("::")[0].split(" as ")[0].strip()
+            if head in SHUTTLE_SYNC or head in ("atomic", "mpsc"):
+                sh_items.append(it)
+            else:
+                std_items.append(it)
+        if not sh_items:
+            return m.group(0)
+        n += 1
+        out = []
+        if std_items:
+            out.append(f"{m.group(1)}use std::sync::{{{', '.join(std_items)}}};")
+        out.append(f"{m.group(1)}use shuttle::sync::{{{', '.join(sh_items)}}};")
+        return "\n".join(out)
+
+    # use std::{..., sync::X, sync::{..}, ...};  (use-tree with the sync part nested one level down)
+    def split_top(body):
+        items, depth, cur = [], 0, ""
+        for ch in body:
+            if ch == "{":
+                depth += 1
+            elif ch == "}":
+                depth -= 1
+            if ch == "," and depth == 0:
+                items.append(cur.strip())
+                cur = ""
+            else:
+                cur += ch
+        if cur.strip():
+            items.append(cur.strip())
+        return items
+
+    def std_tree(m):
+        nonlocal n
+        indent, body = m.group(1), m.group(2)
+        keep, moved = [], []
+        for it in split_top(body):
+            if it.startswith("sync::"):
+                rest = it[len("sync::"):]
+                subs = split_top(rest[1:-1]) if rest.startswith("{") and rest.endswith("}") else [rest]
+                kept_sub = []
+                for sub in subs:
+                    head = sub.split("::")[0].split(" as ")[0].strip()
+                    (moved if head in SHUTTLE_SYNC or head in ("atomic", "mpsc") else kept_sub).append(sub)
+                if kept_sub:
+                    keep.append("sync::{" + ", ".join(kept_sub) + "}")
+            else:
+                keep.append(it)
+        if not moved:
+            return m.group(0)
+        n += 1
+        out = []
+        if keep:
+            out.append(f"{indent}use std::{{{', '.join(keep)}}};")
+        out.append(f"{indent}use shuttle::sync::{{{', '.join(moved)}}};")
+        return "\n".join(out)
+
+    text = re.sub(r"(^[ \t]*(?:pub(?:\([a-z]+\))? )?)use std::\{((?:[^{};]|\{(?:[^{};]|\{[^{};]*\})*\})*)\};", std_tree, text, flags=re.M)
+    # grouped imports directly from std::sync: use std::sync::{Arc, Mutex, atomic::{..}};
+    text = re.sub(r"(^[ \t]*(?:pub(?:\([a-z]+\))? )?)use std::sync::\{([^{}]*(?:\{[^{}]*\}[^{}]*)*)\};", use_group, text, flags=re.M)
+    # top-level grouped imports: use std::{collections::X, sync::{..}} are left to the path rule below when written in full
+    for name in sorted(SHUTTLE_SYNC):
+        text, k = re.subn(rf"\bstd::sync::{name}\b", f"shuttle::sync::{name}", text)
+        n += k
+    text, k = re.subn(r"\bstd::sync::atomic\b", "shuttle::sync::atomic", text)
+    n += k
+    text, k = re.subn(r"\bstd::sync::mpsc\b", "shuttle::sync::mpsc", text)
+    n += k
+    return text, n
+
+
+def prepare_shadow():
+    """Copy /repo to the shadow directory and rewrite its sync primitives. Returns a dict with
+    what was rewritten, or None if nothing in the library uses them (then the shadow run would
+    be identical to the normal one and is skipped)."""
+    os.makedirs(os.path.dirname(SHADOW_DIR), exist_ok=True)
+    rc, out = run(["rsync", "-a", "--delete", "--exclude", "target", "--exclude", ".git", "--exclude", "fuzz", "--exclude", "playground",
+                   "--exclude", "bindings", "--exclude", "swift", "--exclude", "benches", REPO + "/", SHADOW_DIR + "/"], timeout=300)
+    if rc != 0:
+        die(f"rsync of /repo to the shadow directory failed: {out[-500:]}")
+    total = 0
+    files = []
+    tls = 0
+    for root, _dirs, names in os.walk(os.path.join(SHADOW_DIR, "src")):
+        for nme in names:
+            if not nme.endswith(".rs") or nme == "verif_seam.rs":
+                continue
+            fp = os.path.join(root, nme)
+            txt = open(fp).read()
+            tls += txt.count("thread_local!")
+            new, k = rewrite_sync(txt)
+            if k:
+                open(fp, "w").write(new)
+                total += k
+                files.append(os.path.relpath(fp, SHADOW_DIR))
+    # own workspace, no benches, shuttle as a dependency
+    ct = open(os.path.join(SHADOW_DIR, "Cargo.toml")).read()
+    import re
+    keep, skipping = [], False
+    for line in ct.splitlines():
+        st = line.strip()
+        if st.startswith("["):
+            skipping = st in ("[workspace]", "[[bench]]")
+        if not skipping:
+            keep.append(line)
+    ct = "\n".join(keep) + "\n\n[workspace]\n"
+    ct = ct.replace("[dependencies]\n", "[dependencies]\nshuttle = \"=0.9.3\"\n", 1)
+    open(os.path.join(SHADOW_DIR, "Cargo.toml"), "w").write(ct)
+    return {"rewrites": total, "files": files, "thread_locals_left": tls}
+
+
+def build_shadow():
+    """Returns (info, error). info None => skip."""
+    info = prepare_shadow()
+    if not info["rewrites"]:
+        return info, "the library uses no std::sync primitive that shuttle models; the shadow run would equal the normal one"
+    d = os.path.join(HERE, "cooksim-shadow")
+    lock = os.path.join(d, "Cargo.lock")
+    if not os.path.exists(lock):
+        shutil.copy(os.path.join(HERE, "cooksim", "Cargo.lock"), lock)
+    rc, out = run(["cargo", "build", "--release", "--offline"], cwd=d, timeout=1800)
+    if rc != 0:
+        os.makedirs(TMP, exist_ok=True)
+        open(os.path.join(TMP, "build-shadow.log"), "w").write(out)
+        errs = [l for l in out.splitlines() if l.startswith("error")][:4]
+        return info, "the rewritten copy does not build (" + " | ".join(errs) + f"); log {os.path.join(TMP, 'build-shadow.log')}"
+    return info, None
+
+
 # --------------------------------------------------------------------------- workers
 
 class Batch:
@@ -129,12 +274,12 @@ class Batch:
         shutil.rmtree(self.dir, ignore_errors=True)
         os.makedirs(self.dir, exist_ok=True)
 
-    def spawn(self, args, tag, progress=False):
+    def spawn(self, args, tag, progress=False, binary=None):
         out = os.path.join(self.dir, f"{tag}.json")
         err = open(os.path.join(self.dir, f"{tag}.err"), "w")
         prog = os.path.join(self.dir, f"{tag}.progress")
         extra = ["--progress", prog] if progress else []
-        p = subprocess.Popen([BIN, *args, *extra, "--out", out, "--replay-dir", REPLAYS], env=ENV, stdout=err, stderr=err)
+        p = subprocess.Popen([binary or BIN, *args, *extra, "--out", out, "--replay-dir", REPLAYS], env=ENV, stdout=err, stderr=err)
         self.procs.append(dict(p=p, out=out, tag=tag, args=args, prog=prog if progress else None, last=None, last_t=time.time()))
 
     def wait(self, timeout_s):
@@ -226,18 +371,21 @@ def process_violation(prop, raw):
     """Re-execute alone in a fresh process, minimise, replay the minimised file in a
     fresh process. Returns (final_path, reproduced_alone, replay_file_json)."""
     path = raw["replay"]
-    rc, out = run([BIN, "replay", path, "--no-prefix"], timeout=300)
+    shadow = raw.get("engine") == "shadow"
+    real_bin = BIN
+    use_bin = SHADOW_BIN if shadow else BIN
+    rc, out = run([use_bin, "replay", path, "--no-prefix"], timeout=300)
     alone = rc == 1
     note = []
     if not alone:
-        rc2, out2 = run([BIN, "replay", path], timeout=900)
+        rc2, out2 = run([use_bin, "replay", path], timeout=900)
         if rc2 == 1:
             note.append("reproduces only after the worker's earlier runs (state leaked between runs)")
         else:
             # statistical replay: an unseamed nondeterminism source (e.g. std RandomState)
             hits = 0
             for _ in range(32):
-                r, _o = run([BIN, "replay", path, "--no-prefix"], timeout=120)
+                r, _o = run([use_bin, "replay", path, "--no-prefix"], timeout=120)
                 hits += r == 1
             note.append(f"nondeterministic replay: reproduced in {hits}/32 fresh processes")
             if hits:
@@ -247,9 +395,15 @@ def process_violation(prop, raw):
         final = minimise_prefix(path)
     if alone:
         minp = path.replace(".json", ".min.json")
-        rc3, out3 = run([BIN, "minimise", path, "--out", minp], timeout=900)
+        rc3, out3 = run([use_bin, "minimise", path, "--out", minp], timeout=900)
         if rc3 == 0 and os.path.exists(minp):
-            rc4, _ = run([BIN, "replay", minp, "--no-prefix"], timeout=300)
+            rc4, _ = run([use_bin, "replay", minp, "--no-prefix"], timeout=300)
+            if rc4 != 1:
+                # the schedule found inside the minimiser's process does not carry over to a fresh
+                # one: search a schedule for the minimised scenario there and store it
+                rc6, _ = run([use_bin, "research", minp, "--tries", "6000"], timeout=900)
+                if rc6 == 1:
+                    rc4, _ = run([use_bin, "replay", minp, "--no-prefix"], timeout=300)
             if rc4 == 1:
                 final = minp
     rf = json.load(open(final))
@@ -259,12 +413,20 @@ def process_violation(prop, raw):
     # (re-entrant caller), or real OS threads under the baton scheduler.
     confirmed, how = True, ""
     sc = rf.get("scenario") or {}
-    if prop == "C18" and alone and len(sc.get("threads", [])) >= 2:
-        rc5, out5 = run([BIN, "confirm", final], timeout=900)
+    # (a shadow build whose source has no thread_local! left shares nothing but what real threads
+    # share too - its multi-thread violations need no confirmation; one with thread-locals is
+    # confirmed with the normal binary, which reproduces thread-local defects on one thread)
+    if shadow and not raw.get("shadow_thread_locals"):
+        pass
+    elif prop == "C18" and alone and len(sc.get("threads", [])) >= 2:
+        rc5, out5 = run([real_bin, "confirm", final], timeout=900)
         how = (out5.strip().splitlines() or [""])[-1]
         confirmed = rc5 == 1
         note.append(("confirmed: " if confirmed else "NOT confirmed: ") + how)
-    if note:
+    if shadow:
+        rf["engine"] = "shadow"
+        note.append("found by the shadow build (std::sync primitives of the library rewritten to shuttle's); replay with ./check.py replay, which rebuilds it")
+    if note or shadow:
         rf.setdefault("notes", []).extend(note)
         json.dump(rf, open(final, "w"), indent=1)
     rf["_confirmed"] = confirmed
@@ -370,8 +532,8 @@ def write_evidence(prop, tier, seed, level, coverage, assumptions, wall, nviol):
 # --------------------------------------------------------------------------- C18
 
 C18_PLAN = {
-    "quick": dict(runs=16000, scheds=4, cold=128, selftest=192, miri_light=4, miri_full=2, miri_conv=16, budget=900),
-    "thorough": dict(runs=750000, scheds=4, cold=2048, selftest=2048, miri_light=192, miri_full=48, miri_conv=192, budget=7200),
+    "quick": dict(runs=16000, scheds=4, cold=128, selftest=192, miri_light=4, miri_full=2, miri_conv=16, shadow=4000, budget=900),
+    "thorough": dict(runs=750000, scheds=4, cold=2048, selftest=2048, miri_light=192, miri_full=48, miri_conv=192, shadow=300000, budget=7200),
 }
 
 
@@ -617,6 +779,33 @@ def check_c18(tier, seed):
     sim_wall = max([o["wall_s"] for o in outs], default=0.0)
     log(f"[C18] main batch ({time.time() - t0:.0f}s): {agg['runs']} scenarios, {agg['executions']} executions, {agg['steps']} seam points, "
         f"{n_schedules} distinct interleavings, {agg['overlap_execs']} with overlapping operations, faults {fired}")
+    # ---- shadow batch: the same simulation against a copy of the library whose std::sync
+    # primitives are rewritten to shuttle's, so that every atomic / lock operation inside the
+    # library is a scheduling point (races between adjacent atomics, lock-per-step protocols)
+    shadow_info, shadow_err = build_shadow()
+    shadow_stats = {"rewrites": shadow_info["rewrites"], "files": shadow_info["files"], "executions": 0, "scenarios": 0, "skipped": shadow_err}
+    if shadow_err:
+        log(f"[C18] shadow batch skipped: {shadow_err}")
+    elif not sim_limited:
+        sb = Batch("c18shadow")
+        for w in range(W):
+            sb.spawn(["c18", "--seed", str(seed), "--salt", str(100 + salt), "--runs", str(plan["shadow"]), "--worker", str(w),
+                      "--workers", str(W), "--scheds", str(plan["scheds"])], f"w{w}", progress=True, binary=SHADOW_BIN)
+        souts, shung = sb.wait(plan["budget"])
+        for o in souts:
+            shadow_stats["executions"] += o["executions"]
+            shadow_stats["scenarios"] += o["runs"]
+            merge_counts(fired, o["fired"])
+            for v in o["violations"]:
+                v["engine"] = "shadow"
+                v["shadow_thread_locals"] = shadow_info["thread_locals_left"]
+                raws.append(v)
+        for tag, args, idx in shung:
+            log(f"NOTE: shadow worker {tag} stalled at run index {idx}: under the shadow build a lock held across a scheduling point is a deadlock of the simulated schedule only if real threads could deadlock too; "
+                f"re-run: {SHADOW_BIN} {' '.join(args)}")
+            shadow_stats.setdefault("stalled", []).append(f"{tag}@{idx}")
+        sb.cleanup()
+        log(f"[C18] shadow batch ({time.time() - t0:.0f}s): {shadow_info['rewrites']} rewrite(s) in {shadow_info['files']}, {shadow_stats['scenarios']} scenarios, {shadow_stats['executions']} executions")
     # ---- cold-start runs: one scenario per fresh process, each executed twice - once with
     # the reference keys observed in forward and once in reverse order. Whatever the library
     # builds lazily is first touched inside a perturbed scenario, and process-wide state keyed
@@ -699,7 +888,7 @@ def check_c18(tier, seed):
         log(f"[C18] Miri ({time.time() - t0:.0f}s): {lo} light + {fo} full + {co} conv seeds clean, {miri_viol} failing")
     unlisted = report("C18", raws) + real_hangs + st["divergences"] + miri_viol + cold_div
     wall = time.time() - t0
-    execs = agg["executions"] + cold_execs
+    execs = agg["executions"] + cold_execs + shadow_stats["executions"]
     miri_ok = miri.get("light_seeds", 0) + miri.get("full_seeds", 0) + miri.get("conv_seeds", 0)
     coverage = {
         "evaluations": execs + miri_ok,
@@ -726,6 +915,7 @@ def check_c18(tier, seed):
         "hash_seeds": agg["hash_seeds"],
         "seamed_maps_created": agg["maps_created"],
         "miri": miri,
+        "shadow_build": shadow_stats,
         "selftest": st,
         "simulator_limited_by_blocking_primitive": [f"{t}@{i}" for t, i in sim_limited],
         "runs_per_hour": int(execs / max(sim_wall, 0.001) * 3600),
@@ -906,7 +1096,14 @@ def replay(path):
             return 1
         log(f"NOT-REPRODUCED property={prop} class={cls} (simulator rc={rc}, real threads rc={rc2})")
         return 0
-    rc, out = run([BIN, "replay", path], timeout=1800)
+    use_bin = BIN
+    if rf.get("engine") == "shadow":
+        info, err = build_shadow()
+        if err:
+            log(f"NOT-REPRODUCED property={prop} class={cls}: the shadow build is not available for this tree ({err})")
+            return 0
+        use_bin = SHADOW_BIN
+    rc, out = run([use_bin, "replay", path], timeout=1800)
     log(out.rstrip())
     return rc
 
